@@ -144,9 +144,34 @@ class PluckUpdate(NodeUpdate):
         ] + PASS_THROUGH_PLUMBING + self.standard_clauses() + downstream_raise_clauses(self)
 
 
+class PluckUpdateTupleKey(PluckUpdate):
+    """pick is a tuple that is ONE key of the elements (e.g. a (row, col) pair): only a *list* pick means several items"""
+    name = 'pluck.update[pick is a tuple key]'
+
+    def make_self(self, I):
+        return {'pick': VTuple([VElem(z3.Const('pick_a', sym.Elem)), VElem(z3.Const('pick_b', sym.Elem))])}
+
+
+class PluckUpdateListPick(PluckUpdate):
+    """pick is a list of two keys: the output is the tuple of the two items"""
+    name = 'pluck.update[pick is a list]'
+
+    def make_self(self, I):
+        t = z3.Concat(z3.Unit(z3.Const('pick_a', sym.Elem)), z3.Unit(z3.Const('pick_b', sym.Elem)))
+        return {'pick': I.st.new_list(t, K_ELEM)}
+
+    def clauses(self):
+        return [
+            Clause('C01.plucks_the_listed_items_as_a_tuple', ['C01'], text='emitted == [tup([x[self.pick[0]], x[self.pick[1]]])]'),
+            Clause('C10.metadata_unchanged', ['C10'], text='emitted_md == [metadata]'),
+        ] + PASS_THROUGH_PLUMBING + self.standard_clauses() + downstream_raise_clauses(self)
+
+
 class AccumulateUpdate(NodeUpdate):
     cls = 'accumulate'
-    props = ['C01', 'C03', 'C05', 'C10', 'C12', 'C16']
+    # accumulate is the node every streaming dataframe aggregation runs on (Frame.aggregate, Window.aggregate, GroupBy._accumulate,
+    # rolling / cumulative ops): its step contract (state committed before the emission, state kept on failure) carries C06, C07, C11
+    props = ['C01', 'C03', 'C05', 'C10', 'C12', 'C16', 'C06', 'C07', 'C11']
     data_fields = ('state',)
     assumptions = ('when returns_state is set the user function returns a pair (state, result)',)
 
@@ -186,5 +211,5 @@ class SinkUpdate(NodeUpdate):
         return {'func': VCallable('func'), 'args': ARGS, 'kwargs': KWARGS}
 
 
-ALL = [MapUpdate, StarmapUpdate, FilterUpdate, FilterTruthy, UnionUpdate, StreamUpdate, PluckUpdate,
+ALL = [MapUpdate, StarmapUpdate, FilterUpdate, FilterTruthy, UnionUpdate, StreamUpdate, PluckUpdate, PluckUpdateTupleKey, PluckUpdateListPick,
        AccumulateUpdate]
